@@ -161,6 +161,7 @@ func NewWorld(c Cfg) *World {
 	w.mintTo(sim.Addr(External), "", coin("ucmst", 10000))
 
 	// prices: collateral 2, stable 1, gov 1 (units: the market module's 10^6 scale is irrelevant with Decimals = 1)
+	e.App.BandoracleKeeper.SetOracleValidationResult(ctx, true) // otherwise market.BeginBlocker switches every price off
 	w.SetPrice(AssetAtom, 2000000)
 	w.SetPrice(AssetCmst, 1000000)
 	w.SetPrice(AssetHarbor, 1000000)
